@@ -12,4 +12,4 @@ require (
 	golang.org/x/sys v0.45.0 // indirect
 )
 
-replace github.com/gopacket/gopacket => /tmp/bc04-m
+replace github.com/gopacket/gopacket => /tmp/c14anc-wt
